@@ -85,6 +85,11 @@ pub struct Interpreter<TStdlib: Stdlib, TStdIn: Input, TStdOut: Printer, TLpt1: 
 
     print_state: PrintState,
 
+    /// The print states of the callers: a PRINT whose arguments call a function
+    /// that prints must find its own device, format and column logic again afterwards.
+    /// Grows and shrinks together with `stacktrace`.
+    print_state_stack: Vec<PrintState>,
+
     data_segment: DataSegment,
 
     def_seg: Option<usize>,
@@ -306,6 +311,7 @@ impl<TStdlib: Stdlib, TStdIn: Input, TStdOut: Printer, TLpt1: Printer>
             last_error_address: None,
             last_error_code: None,
             print_state: PrintState::new(),
+            print_state_stack: vec![],
             data_segment: DataSegment::default(),
             def_seg: None,
             statement_snapshots: vec![StatementSnapshot::default()],
@@ -427,15 +433,20 @@ impl<TStdlib: Stdlib, TStdIn: Input, TStdOut: Printer, TLpt1: Printer>
             Instruction::PushStack => {
                 self.context.stop_collecting_arguments();
                 self.stacktrace.insert(0, pos);
+                self.push_print_state();
             }
             Instruction::PushStaticStack(scope_name) => {
                 self.context
                     .stop_collecting_arguments_static(scope_name.clone());
                 self.stacktrace.insert(0, pos);
+                self.push_print_state();
             }
             Instruction::PopStack => {
                 self.context.pop();
                 self.stacktrace.remove(0);
+                if let Some(print_state) = self.print_state_stack.pop() {
+                    self.print_state = print_state;
+                }
             }
             Instruction::EnqueueToReturnStack(index) => {
                 subprogram::enqueue_to_return_stack(self, *index);
@@ -531,6 +542,7 @@ impl<TStdlib: Stdlib, TStdIn: Input, TStdOut: Printer, TLpt1: Printer>
                 self.context.truncate_states(1);
                 self.return_address_stack.clear();
                 self.stacktrace.clear();
+                self.print_state_stack.clear();
                 self.var_path_stack.clear();
                 self.by_ref_stack.clear();
                 self.function_results.clear();
@@ -710,6 +722,12 @@ impl<TStdlib: Stdlib, TStdIn: Input, TStdOut: Printer, TLpt1: Printer>
         }
     }
 
+    /// Sets the print state of the caller aside for the duration of a call.
+    fn push_print_state(&mut self) {
+        let print_state = std::mem::replace(&mut self.print_state, PrintState::new());
+        self.print_state_stack.push(print_state);
+    }
+
     /// Brings the VM stacks back to the state they had at the start of the statement
     /// that failed, dropping the partial results of that statement. The stacktrace
     /// also needs to be restored, because it is drained into the error.
@@ -721,6 +739,7 @@ impl<TStdlib: Stdlib, TStdIn: Input, TStdOut: Printer, TLpt1: Printer>
             self.by_ref_stack.truncate(snapshot.by_ref_stack);
             self.context.truncate_states(snapshot.states);
             self.stacktrace = snapshot.stacktrace.clone();
+            self.print_state_stack.truncate(snapshot.stacktrace.len());
             self.function_results.truncate(snapshot.function_results);
         }
     }
